@@ -490,16 +490,11 @@ type jsonObs struct {
 	Panic     string      `json:"panic,omitempty"`
 }
 
-type jsonCase struct {
-	Kind string `json:"kind"` // "json"
-	Text string `json:"text"`
-}
-
 // runJSON runs one JSON text through the reader, the converters and a copy transform, evaluates
 // the property oracle (equality with encoding/json's Unmarshal of the same text) and emits the
 // correspondence case.  gen is nil for raw texts (corpus / replay).
 func runJSON(sum *vh.Summary, cw *vh.CaseWriter, text string, gen *jval, verbose bool) (failed bool) {
-	cs := jsonCase{Kind: "json", Text: text}
+	cs := textCase{Kind: "json", Text: text}
 	obs := &jsonObs{}
 	fail := func(what string, detail interface{}) {
 		failed = true
@@ -700,7 +695,7 @@ func genJSONCase(r *vh.Rng, sum *vh.Summary, cw *vh.CaseWriter) {
 		sum.Hist("json:numbers")
 	}
 	failed := runJSON(sum, cw, text, v, false)
-	if !failed && nontrivial {
+	if !failed && nontrivial && len(sum.Samples) < 2 && st.depth >= 2 {
 		sum.Sample(map[string]interface{}{"kind": "json", "text": text})
 	}
 }
